@@ -14,7 +14,7 @@ from pulsarbat.pulsar.phase import Phase, FractionalPhase
 from harness.common import float_lit, zlit, listlit
 
 VFILES = ['Model/Phase2.v', 'Proofs/TwoSumExact.v', 'Proofs/Floor.v', 'Proofs/DayFrac.v', 'Proofs/DayFrac3.v', 'Proofs/PhaseAdd.v',
-          'Proofs/PhaseCmp.v', 'Proofs/PhaseMore.v', 'Props/C07.v']
+          'Proofs/PhaseCmp.v', 'Proofs/PhaseMore.v', 'Proofs/DayFracTail.v', 'Proofs/TwoProduct.v', 'Proofs/PhaseMul.v', 'Props/C07.v']
 REAL_AX = {'ClassicalDedekindReals.sig_forall_dec', 'ClassicalDedekindReals.sig_not_dec',
            'FunctionalExtensionality.functional_extensionality_dep', 'Classical_Prop.classic', 'float'}
 TOL = Fr(1, 2 ** 52)
@@ -320,8 +320,10 @@ def run(ctx):
             ws = [exact(a[k])[0] + exact(b[k])[0] if op == 'add' else exact(a[k])[0] - exact(b[k])[0] for k in range(n)]
         elif op in ('mul', 'div'):
             f = np.array([rng.choice([2.0, 0.5, 3.0, -1.5, 1e-3, 7.0]) for _ in range(n)])
-            for k in range(n):
-                if abs(exact(a[k])[0]) > 2 ** 48:
+            for k in range(n):       # keep every product / quotient inside the property's domain (counts up to 2^52)
+                ea_k = abs(exact(a[k])[0])
+                res_k = ea_k * Fr(float(abs(f[k]))) if op == 'mul' else ea_k / Fr(float(abs(f[k])))
+                if res_k > 2 ** 52 - 2:
                     f[k] = 0.5 if op == 'mul' else 2.0
             r, code, err = impl_res(lambda: a * f if op == 'mul' else a / f)
             terms = [f'op_{op} {ph_lit(a[k])} {num_lit(float(f[k]))}' for k in range(n)]
